@@ -6,7 +6,7 @@ From Coq Require Import ZifyBool.
 
 (** ** Domain of one segment: positive timescale, non-empty, at most 10 s long, no uint64 wrap *)
 Definition seg_dom (ts s e : Z) : Prop :=
-  0 < ts /\ 0 <= s /\ s < e /\ e - s <= 10 * ts /\ e + 60 * ts < two64.
+  0 < ts /\ 0 <= s /\ s < e /\ e - s <= 10 * ts /\ e + 70 * ts < two64.
 
 Lemma u64_small x : 0 <= x < two64 -> u64 x = x.
 Proof. intros; unfold u64; apply Z.mod_small; assumption. Qed.
@@ -54,68 +54,81 @@ Proof. reflexivity. Qed.
 Lemma Some_inj {A} (a b : A) : Some a = Some b -> a = b.
 Proof. congruence. Qed.
 
-(** CreateEmsgAhead on a segment of the domain: the first offset of the minute of [s] whose
+(** the candidates CreateEmsgAhead tries, as offsets from the start of the segment's minute: the
+    documented offsets, then the first splice (10 s) of the next minute *)
+Definition candidates (offs : list Z) : list Z := offs ++ [next_minute_first].
+
+Lemma candidates_range n offs c : splice_offsets n = Some offs -> In c (candidates offs) -> 10 <= c <= 70.
+Proof.
+  unfold candidates. intros H Hin. apply in_app_or in Hin. destruct Hin as [Hin|Hin].
+  - pose proof (offsets_range _ _ _ H Hin). lia.
+  - cbn in Hin. unfold next_minute_first in Hin. lia.
+Qed.
+
+Lemma ten_in_offsets n offs : splice_offsets n = Some offs -> In 10 offs.
+Proof.
+  unfold splice_offsets; intros H.
+  destruct (n =? 1); [inversion H; subst; now left|].
+  destruct (n =? 2); [inversion H; subst; now left|].
+  destruct (n =? 3); [inversion H; subst; now left|discriminate].
+Qed.
+
+(** any two candidates are at least 10 s apart *)
+Lemma candidates_spaced n offs c1 c2 : splice_offsets n = Some offs ->
+  In c1 (candidates offs) -> In c2 (candidates offs) -> c1 = c2 \/ c1 + 10 <= c2 \/ c2 + 10 <= c1.
+Proof.
+  unfold splice_offsets, candidates, next_minute_first; intros H.
+  destruct (n =? 1); [inversion H; subst; cbn; lia|].
+  destruct (n =? 2); [inversion H; subst; cbn; lia|].
+  destruct (n =? 3); [inversion H; subst; cbn; lia|discriminate].
+Qed.
+
+(** CreateEmsgAhead on a segment of the domain: the first candidate of the minute of [s] whose
     announce instant lies in (s, e] *)
 Lemma createEmsgAhead_eq ts n s e offs :
   seg_dom ts s e -> splice_offsets n = Some offs ->
   createEmsgAhead s e ts n =
-  match find (fun off => in_seg (announce_of ts (sched_time ts (s / (60 * ts)) off)) (s, e)) offs with
+  match find (fun c => in_seg (announce_of ts (sched_time ts (s / (60 * ts)) c)) (s, e)) (candidates offs) with
   | None => Ok None
-  | Some off => Ok (Some (emsg_of ts n (sched_time ts (s / (60 * ts)) off)))
+  | Some c => Ok (Some (emsg_of ts n (sched_time ts (s / (60 * ts)) c)))
   end.
 Proof.
   intros (Hts & Hs & Hse & Hlen & Hmax) Hoffs.
-  unfold createEmsgAhead. rewrite Hoffs. change minute_s with 60.
+  unfold createEmsgAhead. rewrite Hoffs. change minute_s with 60. fold (candidates offs).
   pose proof two64_pos.
   rewrite (u64_small (60 * ts)) by lia.
   destruct (60 * ts =? 0) eqn:E0; [lia|].
   destruct (minute_facts ts s Hts Hs) as (HM & Hmod & Hms).
   set (M := s / (60 * ts)) in *.
   rewrite Hmod.
-  assert (Hsit : forall off, 10 <= off <= 46 ->
-            u64 (s - (s - 60 * ts * M) + u64 (off * ts)) = sched_time ts M off).
-  { intros off Ho. unfold sched_time.
-    rewrite (u64_small (off * ts)) by nia.
+  assert (Hsit : forall c, 10 <= c <= 70 ->
+            u64 (s - (s - 60 * ts * M) + u64 (c * ts)) = sched_time ts M c).
+  { intros c Ho. unfold sched_time.
+    rewrite (u64_small (c * ts)) by nia.
     rewrite u64_small by nia. ring. }
-  rewrite (find_map_ext _ _ (fun off => in_seg (announce_of ts (sched_time ts M off)) (s, e))).
-  - destruct (find _ offs) as [off|] eqn:Ef; cbn [option_map]; [|reflexivity].
+  rewrite (find_map_ext _ _ (fun c => in_seg (announce_of ts (sched_time ts M c)) (s, e))).
+  - destruct (find _ (candidates offs)) as [c|] eqn:Ef; cbn [option_map]; [|reflexivity].
     apply find_some in Ef. destruct Ef as [Hin _].
-    pose proof (offsets_range _ _ _ Hoffs Hin) as Ho.
-    rewrite (Hsit off Ho). reflexivity.
-  - intros off Hin. pose proof (offsets_range _ _ _ Hoffs Hin) as Ho.
-    rewrite (Hsit off Ho). unfold in_seg, announce_of, announce_lead, sched_time. cbn [fst snd].
+    pose proof (candidates_range _ _ _ Hoffs Hin) as Ho.
+    rewrite (Hsit c Ho). reflexivity.
+  - intros c Hin. pose proof (candidates_range _ _ _ Hoffs Hin) as Ho.
+    rewrite (Hsit c Ho). unfold in_seg, announce_of, announce_lead, sched_time. cbn [fst snd].
     rewrite (u64_small (7 * ts)) by lia.
     rewrite u64_small by nia. reflexivity.
 Qed.
 
 (** ** One segment: what it carries *)
 
-(** within 10 s at most one announce instant of a minute: the instants are 3, 29/33 and 39 s
-    after the minute, the closest two exactly 10 s apart, and the interval is half open *)
-Lemma one_offset_per_segment ts n s e offs M o1 o2 :
-  seg_dom ts s e -> splice_offsets n = Some offs -> In o1 offs -> In o2 offs ->
-  in_seg (announce_of ts (sched_time ts M o1)) (s, e) = true ->
-  in_seg (announce_of ts (sched_time ts M o2)) (s, e) = true -> o1 = o2.
+(** within 10 s at most one announce instant: the instants of consecutive candidates are at least
+    10 s apart, and the interval (s, e] is half open *)
+Lemma one_candidate_per_segment ts n s e offs M c1 c2 :
+  seg_dom ts s e -> splice_offsets n = Some offs -> In c1 (candidates offs) -> In c2 (candidates offs) ->
+  in_seg (announce_of ts (sched_time ts M c1)) (s, e) = true ->
+  in_seg (announce_of ts (sched_time ts M c2)) (s, e) = true -> c1 = c2.
 Proof.
   intros (Hts & Hs & Hse & Hlen & Hmax) Hoffs H1 H2.
   unfold in_seg, announce_of, announce_lead, sched_time; cbn [fst snd]. intros A B.
-  assert (D : forall a b : Z, a + 10 <= b -> (60 * M + a - 7) * ts + 10 * ts <= (60 * M + b - 7) * ts) by (intros; nia).
-  unfold splice_offsets in Hoffs.
-  destruct (n =? 1); [inversion Hoffs; subst; cbn in H1, H2; lia|].
-  destruct (n =? 2).
-  { inversion Hoffs; subst; cbn in H1, H2.
-    destruct H1 as [<-|[<-|[]]], H2 as [<-|[<-|[]]]; try reflexivity; exfalso.
-    - pose proof (D 10 40 ltac:(lia)); lia.
-    - pose proof (D 10 40 ltac:(lia)); lia. }
-  destruct (n =? 3); [|discriminate].
-  inversion Hoffs; subst; cbn in H1, H2.
-  destruct H1 as [<-|[<-|[<-|[]]]], H2 as [<-|[<-|[<-|[]]]]; try reflexivity; exfalso.
-  - pose proof (D 10 36 ltac:(lia)); lia.
-  - pose proof (D 10 46 ltac:(lia)); lia.
-  - pose proof (D 10 36 ltac:(lia)); lia.
-  - pose proof (D 36 46 ltac:(lia)); lia.
-  - pose proof (D 10 46 ltac:(lia)); lia.
-  - pose proof (D 36 46 ltac:(lia)); lia.
+  destruct (candidates_spaced n offs c1 c2 Hoffs H1 H2) as [E|[E|E]]; [exact E| |]; exfalso; nia.
 Qed.
 
 Lemma find_unique {A} (f : A -> bool) l x :
@@ -126,27 +139,56 @@ Proof.
   - exfalso. pose proof (find_none _ _ E x Hin). congruence.
 Qed.
 
-(** the splice time announced in a segment: scheduled in the minute in which the segment starts,
-    announce instant inside the segment; and every such splice time is announced *)
+(** the splice time announced in a segment: a scheduled splice (documented offset of some minute)
+    whose announce instant lies inside the segment; and every such splice time is announced *)
 Lemma carried_spec ts n s e offs sigma :
   seg_dom ts s e -> splice_offsets n = Some offs ->
   (carried ts n (s, e) = Some sigma <->
-   exists off, In off offs /\ sigma = sched_time ts (s / (60 * ts)) off /\
-               s < announce_of ts sigma <= e).
+   exists m off, 0 <= m /\ In off offs /\ sigma = sched_time ts m off /\
+                 s < announce_of ts sigma <= e).
 Proof.
-  intros Hd Hoffs. unfold carried; cbn [fst snd].
+  intros Hd Hoffs. pose proof Hd as (Hts & Hs & Hse & Hlen & Hmax).
+  destruct (minute_facts ts s Hts Hs) as (HM & _ & Hms).
+  unfold carried; cbn [fst snd].
   rewrite (createEmsgAhead_eq _ _ _ _ _ Hd Hoffs).
+  set (M := s / (60 * ts)) in *.
   split.
-  - destruct (find _ offs) as [off|] eqn:Ef; [|discriminate].
+  - destruct (find _ (candidates offs)) as [c|] eqn:Ef; [|discriminate].
     rewrite e_pt_emsg_of. intros H; apply Some_inj in H; subst sigma.
     apply find_some in Ef. destruct Ef as [Hin Hseg].
-    exists off. split; [assumption|]. split; [reflexivity|].
-    unfold in_seg in Hseg; cbn [fst snd] in Hseg. lia.
-  - intros (off & Hin & -> & Ha).
-    rewrite (find_unique _ offs off); [reflexivity|assumption| |].
-    + unfold in_seg; cbn [fst snd]. lia.
-    + intros y Hy Hfy. eapply one_offset_per_segment; eauto.
-      unfold in_seg; cbn [fst snd]. lia.
+    unfold in_seg in Hseg; cbn [fst snd] in Hseg.
+    unfold candidates in Hin. apply in_app_or in Hin. destruct Hin as [Hin|Hin].
+    + exists M, c. repeat split; try assumption; lia.
+    + cbn in Hin. unfold next_minute_first in Hin. assert (c = 70) by lia. subst c.
+      exists (M + 1), 10. split; [lia|]. split; [apply (ten_in_offsets _ _ Hoffs)|].
+      assert (E : sched_time ts M 70 = sched_time ts (M + 1) 10) by (unfold sched_time; ring).
+      rewrite <- E. repeat split; lia.
+  - intros (m & off & Hm & Hin & -> & Ha).
+    pose proof (offsets_range _ _ _ Hoffs Hin) as Ho.
+    unfold announce_of, announce_lead, sched_time in Ha.
+    (* the splice is in the minute of s, or it is the first of the next minute *)
+    assert (Hcase : m = M \/ (m = M + 1 /\ off = 10)).
+    { assert (H1 : (60 * M) * ts < (60 * m + off - 7) * ts) by lia.
+      assert (H2 : (60 * m + off - 7) * ts < (60 * M + 70) * ts) by lia.
+      apply Zmult_lt_reg_r in H1; [|lia]. apply Zmult_lt_reg_r in H2; [|lia].
+      assert (off = 10 \/ 17 <= off).
+      { unfold splice_offsets in Hoffs.
+        destruct (n =? 1); [inversion Hoffs; subst; cbn in Hin; lia|].
+        destruct (n =? 2); [inversion Hoffs; subst; cbn in Hin; lia|].
+        destruct (n =? 3); [inversion Hoffs; subst; cbn in Hin; lia|discriminate]. }
+      lia. }
+    assert (Hc : exists c, In c (candidates offs) /\ sched_time ts m off = sched_time ts M c).
+    { destruct Hcase as [->|[-> ->]].
+      - exists off. split; [unfold candidates; apply in_or_app; now left|reflexivity].
+      - exists 70. split; [unfold candidates, next_minute_first; apply in_or_app; right; now left|].
+        unfold sched_time; ring. }
+    destruct Hc as (c & Hcin & Hceq).
+    rewrite (find_unique _ (candidates offs) c).
+    + rewrite e_pt_emsg_of, Hceq. reflexivity.
+    + exact Hcin.
+    + rewrite <- Hceq. unfold in_seg, announce_of, announce_lead, sched_time; cbn [fst snd]. lia.
+    + intros y Hy Hfy. eapply one_candidate_per_segment; eauto.
+      rewrite <- Hceq. unfold in_seg, announce_of, announce_lead, sched_time; cbn [fst snd]. lia.
 Qed.
 
 Lemma carried_emsg ts n s e offs sigma :
@@ -156,7 +198,7 @@ Lemma carried_emsg ts n s e offs sigma :
 Proof.
   intros Hd Hoffs. unfold carried; cbn [fst snd].
   rewrite (createEmsgAhead_eq _ _ _ _ _ Hd Hoffs).
-  destruct (find _ offs); [|discriminate]. rewrite e_pt_emsg_of. intros H; apply Some_inj in H; subst sigma. reflexivity.
+  destruct (find _ (candidates offs)); [|discriminate]. rewrite e_pt_emsg_of. intros H; apply Some_inj in H; subst sigma. reflexivity.
 Qed.
 
 (** a valid segment never makes CreateEmsgAhead fail *)
@@ -165,53 +207,46 @@ Lemma createEmsgAhead_ok ts n s e offs :
   exists r, createEmsgAhead s e ts n = Ok r.
 Proof.
   intros Hd Hoffs. rewrite (createEmsgAhead_eq _ _ _ _ _ Hd Hoffs).
-  destruct (find _ offs); eauto.
+  destruct (find _ (candidates offs)); eauto.
 Qed.
 
-(** the test for one given scheduled splice time: announce instant inside the segment and the
-    segment starts in the minute of the splice (not before it) *)
+(** two different scheduled splices are at least 10 s apart (any minutes) *)
+Lemma sched_spaced ts n offs m1 o1 m2 o2 :
+  0 < ts -> splice_offsets n = Some offs -> In o1 offs -> In o2 offs ->
+  sched_time ts m1 o1 = sched_time ts m2 o2 \/
+  sched_time ts m1 o1 + 10 * ts <= sched_time ts m2 o2 \/
+  sched_time ts m2 o2 + 10 * ts <= sched_time ts m1 o1.
+Proof.
+  intros Hts Hoffs H1 H2. unfold sched_time.
+  assert (K : 60 * m1 + o1 = 60 * m2 + o2 \/ 60 * m1 + o1 + 10 <= 60 * m2 + o2 \/ 60 * m2 + o2 + 10 <= 60 * m1 + o1).
+  { unfold splice_offsets in Hoffs.
+    destruct (n =? 1); [inversion Hoffs; subst; cbn in H1, H2; lia|].
+    destruct (n =? 2); [inversion Hoffs; subst; cbn in H1, H2; lia|].
+    destruct (n =? 3); [inversion Hoffs; subst; cbn in H1, H2; lia|discriminate]. }
+  destruct K as [K|[K|K]]; [left; rewrite K; reflexivity|right; left; nia|right; right; nia].
+Qed.
+
+(** the test for one given scheduled splice time: its announce instant lies inside the segment *)
 Lemma carries_iff ts n s e offs m off :
   seg_dom ts s e -> splice_offsets n = Some offs -> In off offs -> 0 <= m ->
   let sigma := sched_time ts m off in
-  carries ts n sigma (s, e) = in_seg (announce_of ts sigma) (s, e) && (60 * ts * m <=? s).
+  carries ts n sigma (s, e) = in_seg (announce_of ts sigma) (s, e).
 Proof.
   intros Hd Hoffs Hin Hm sigma.
   pose proof Hd as (Hts & Hs & Hse & Hlen & Hmax).
-  destruct (minute_facts ts s Hts Hs) as (HM & _ & Hms).
-  pose proof (offsets_range _ _ _ Hoffs Hin) as Ho.
   unfold carries.
   destruct (carried ts n (s, e)) as [x|] eqn:Ec.
-  - apply (carried_spec _ _ _ _ _ _ Hd Hoffs) in Ec. destruct Ec as (off' & Hin' & -> & Ha).
-    pose proof (offsets_range _ _ _ Hoffs Hin') as Ho'.
-    set (M := s / (60 * ts)) in *.
-    destruct (sched_time ts M off' =? sigma) eqn:E.
-    + (* same splice time: same minute *)
-      assert (sched_time ts M off' = sigma) as Es by lia. subst sigma. unfold sched_time in Es.
-      assert (M = m) by nia. subst m.
-      assert (off' = off) by nia. subst off'.
-      unfold in_seg; cbn [fst snd]. fold (sched_time ts M off) in *. lia.
-    + symmetry. apply andb_false_iff.
-      destruct (in_seg (announce_of ts sigma) (s, e)) eqn:Eseg; [right|now left].
-      destruct (60 * ts * m <=? s) eqn:Em; [exfalso|reflexivity].
-      unfold in_seg, announce_of, announce_lead in Eseg; cbn [fst snd] in Eseg. subst sigma.
-      unfold sched_time in *.
-      assert (s < 60 * ts * m + 60 * ts) by nia.
-      assert (M = m) by (apply minute_unique; lia). subst m.
-      assert (off = off').
-      { eapply (one_offset_per_segment ts n s e offs M); eauto.
-        all: unfold in_seg, announce_of, announce_lead, sched_time; cbn [fst snd].
-        all: unfold announce_of, announce_lead, sched_time in Ha; lia. }
-      subst off'. lia.
-  - symmetry. apply andb_false_iff.
-    destruct (in_seg (announce_of ts sigma) (s, e)) eqn:Eseg; [right|now left].
-    destruct (60 * ts * m <=? s) eqn:Em; [exfalso|reflexivity].
-    unfold in_seg, announce_of, announce_lead in Eseg; cbn [fst snd] in Eseg. subst sigma.
-    unfold sched_time in *.
-    assert (s < 60 * ts * m + 60 * ts) by nia.
-    assert (s / (60 * ts) = m) as EM by (apply minute_unique; lia).
-    assert (carried ts n (s, e) = Some (sched_time ts m off)); [|congruence].
-    apply (carried_spec _ _ _ _ _ _ Hd Hoffs). exists off. rewrite EM.
-    unfold announce_of, announce_lead, sched_time. repeat split; try assumption; lia.
+  - apply (carried_spec _ _ _ _ _ _ Hd Hoffs) in Ec. destruct Ec as (m' & off' & Hm' & Hin' & -> & Ha).
+    destruct (sched_time ts m' off' =? sigma) eqn:E.
+    + assert (sched_time ts m' off' = sigma) as Es by lia. rewrite <- Es.
+      unfold in_seg; cbn [fst snd]. lia.
+    + symmetry. unfold in_seg; cbn [fst snd].
+      destruct (sched_spaced ts n offs m' off' m off Hts Hoffs Hin' Hin) as [K|[K|K]]; [lia| |];
+        fold sigma in K; unfold announce_of, announce_lead in *; lia.
+  - symmetry. destruct (in_seg (announce_of ts sigma) (s, e)) eqn:Eseg; [exfalso|reflexivity].
+    assert (carried ts n (s, e) = Some sigma); [|congruence].
+    apply (carried_spec _ _ _ _ _ _ Hd Hoffs). exists m, off.
+    unfold in_seg in Eseg; cbn [fst snd] in Eseg. repeat split; try assumption; lia.
 Qed.
 
 (** ** Contiguous segment sequences *)
@@ -300,7 +335,7 @@ Qed.
 
 (** the domain of a whole sequence *)
 Definition seq_dom (ts : Z) (segs : list (Z * Z)) : Prop :=
-  0 < ts /\ contiguous (10 * ts) segs /\ segs <> [] /\ 0 <= seq_start segs /\ seq_end segs + 60 * ts < two64.
+  0 < ts /\ contiguous (10 * ts) segs /\ segs <> [] /\ 0 <= seq_start segs /\ seq_end segs + 70 * ts < two64.
 
 Lemma seq_dom_seg ts segs seg : seq_dom ts segs -> In seg segs -> seg_dom ts (fst seg) (snd seg).
 Proof.
@@ -308,41 +343,49 @@ Proof.
   pose proof (contiguous_in _ _ Hc seg Hin). unfold seg_dom. lia.
 Qed.
 
-(** ** The sequence theorem: how often a scheduled splice is announced *)
+(** ** The sequence theorem: every scheduled splice is announced exactly once *)
 Theorem announcements_count ts n segs offs m off :
   seq_dom ts segs -> splice_offsets n = Some offs -> In off offs -> 0 <= m ->
   let sigma := sched_time ts m off in
   let a := announce_of ts sigma in
   seq_start segs < a <= seq_end segs ->
   exists h, holder a segs = Some h /\ In h segs /\ fst h < a <= snd h /\
-    announcements ts n sigma segs = (if 60 * ts * m <=? fst h then 1 else 0) /\
-    (forall seg, In seg segs -> carries ts n sigma seg = true -> seg = h) /\
-    carries ts n sigma h = (60 * ts * m <=? fst h).
+    announcements ts n sigma segs = 1 /\
+    carries ts n sigma h = true /\
+    (forall seg, In seg segs -> carries ts n sigma seg = true -> seg = h).
 Proof.
   intros Hd Hoffs Hin Hm sigma a Ha.
   pose proof Hd as (Hts & Hc & Hne & H0 & Hmax).
   destruct (holder_exists _ _ a Hc Hne Ha) as (h & Hh & Hinh & Hah).
   exists h. split; [exact Hh|]. split; [exact Hinh|]. split; [exact Hah|].
-  assert (Hpt : forall seg, In seg segs ->
-            carries ts n sigma seg = in_seg a seg && (60 * ts * m <=? fst seg)).
+  assert (Hpt : forall seg, In seg segs -> carries ts n sigma seg = in_seg a seg).
   { intros [s e] Hseg. apply (carries_iff ts n s e offs m off); try assumption.
     apply (seq_dom_seg ts segs (s, e) Hd Hseg). }
   split; [|split].
-  - unfold announcements. rewrite (filter_ext_in' _ _ _ Hpt), filter_andb, (filter_in_seg _ _ a Hc), Hh.
-    cbn [filter]. destruct (60 * ts * m <=? fst h); reflexivity.
-  - intros seg Hseg Hcar. rewrite (Hpt seg Hseg) in Hcar. apply andb_true_iff in Hcar. destruct Hcar as [Hs _].
-    assert (In seg (filter (in_seg a) segs)) as Hf by (apply filter_In; split; assumption).
-    rewrite (filter_in_seg _ _ a Hc), Hh in Hf. destruct Hf as [<-|[]]. reflexivity.
+  - unfold announcements. rewrite (filter_ext_in' _ _ _ Hpt), (filter_in_seg _ _ a Hc), Hh. reflexivity.
   - rewrite (Hpt h Hinh). unfold in_seg.
     destruct (fst h <? a) eqn:E1; [|lia]. destruct (a <=? snd h) eqn:E2; [|lia]. reflexivity.
+  - intros seg Hseg Hcar. rewrite (Hpt seg Hseg) in Hcar.
+    assert (In seg (filter (in_seg a) segs)) as Hf by (apply filter_In; split; assumption).
+    rewrite (filter_in_seg _ _ a Hc), Hh in Hf. destruct Hf as [<-|[]]. reflexivity.
 Qed.
 
-(** offsets other than the first of the minute: the holder always starts in the minute of the
-    splice, because it is at most 10 s long and the announce instant is at least 29 s into the minute *)
-Lemma later_offsets_in_minute ts m off s e :
-  0 < ts -> 0 <= m -> 17 <= off -> e - s <= 10 * ts ->
-  s < announce_of ts (sched_time ts m off) <= e -> 60 * ts * m <= s.
-Proof. unfold announce_of, announce_lead, sched_time. intros. nia. Qed.
+(** a splice whose announce instant is outside the sequence is not announced by it *)
+Theorem announcements_outside ts n segs offs m off :
+  seq_dom ts segs -> splice_offsets n = Some offs -> In off offs -> 0 <= m ->
+  let sigma := sched_time ts m off in
+  let a := announce_of ts sigma in
+  (a <= seq_start segs \/ seq_end segs < a) ->
+  announcements ts n sigma segs = 0.
+Proof.
+  intros Hd Hoffs Hin Hm sigma a Ha. subst a sigma.
+  pose proof Hd as (Hts & Hc & Hne & H0 & Hmax).
+  unfold announcements. rewrite filter_none; [reflexivity|].
+  intros [s e] Hseg.
+  rewrite (carries_iff ts n s e offs m off (seq_dom_seg ts segs (s, e) Hd Hseg) Hoffs Hin Hm).
+  pose proof (contiguous_in _ _ Hc (s, e) Hseg) as Hb. cbn [fst snd] in Hb.
+  unfold in_seg; cbn [fst snd]. lia.
+Qed.
 
 (** ** Per wall-clock minute: exactly N events *)
 
@@ -378,9 +421,8 @@ Proof.
   intros Hd Hoffs Hm. pose proof Hd as (Hts & _).
   unfold carries.
   destruct (carried ts n (s, e)) as [x|] eqn:Ec.
-  - apply (carried_spec _ _ _ _ _ _ Hd Hoffs) in Ec. destruct Ec as (off' & Hin' & -> & _).
+  - apply (carried_spec _ _ _ _ _ _ Hd Hoffs) in Ec. destruct Ec as (M & off' & HM & Hin' & -> & _).
     pose proof (offsets_range _ _ _ Hoffs Hin') as Ho'.
-    set (M := s / (60 * ts)) in *.
     cbn [filter]. rewrite (sched_minute ts M off' Hts Ho').
     assert (Hmap : map (fun off => b1 (sched_time ts M off' =? sched_time ts m off)) offs
                  = map (fun off => b1 ((M =? m) && (off' =? off))) offs).
@@ -431,38 +473,45 @@ Proof.
   rewrite lenZ_cons, (H x (or_introl eq_refl)), IH; [lia|]. intros; apply H; now right.
 Qed.
 
-(** a sequence that covers the announce instants of minute m (3 s … 39 s after the minute), and in
-    which the segment containing the first one starts in minute m, carries exactly N events with a
-    splice time in minute m: one per documented offset *)
+(** a sequence that covers the announce instants of minute m (3 s … 39 s after the minute) carries
+    exactly N events with a splice time in minute m: one per documented offset *)
 Theorem minute_has_n_events ts n segs offs m :
   seq_dom ts segs -> splice_offsets n = Some offs -> 0 <= m ->
   seq_start segs < (60 * m + 3) * ts -> (60 * m + 39) * ts <= seq_end segs ->
-  (forall h, holder ((60 * m + 3) * ts) segs = Some h -> 60 * ts * m <= fst h) ->
   lenZ (events_in_minute ts n m segs) = n /\
   forall off, In off offs -> announcements ts n (sched_time ts m off) segs = 1.
 Proof.
-  intros Hd Hoffs Hm Hlo Hhi Hfirst.
+  intros Hd Hoffs Hm Hlo Hhi.
   pose proof Hd as (Hts & Hc & Hne & H0 & Hmax).
   assert (Hone : forall off, In off offs -> announcements ts n (sched_time ts m off) segs = 1).
   { intros off Hin. pose proof (offsets_range _ _ _ Hoffs Hin) as Ho.
-    destruct (announcements_count ts n segs offs m off Hd Hoffs Hin Hm) as (h & Hh & Hinh & Hah & Hcnt & _).
+    destruct (announcements_count ts n segs offs m off Hd Hoffs Hin Hm) as (h & _ & _ & _ & Hcnt & _).
     { unfold announce_of, announce_lead, sched_time. nia. }
-    rewrite Hcnt.
-    assert (60 * ts * m <= fst h); [|destruct (60 * ts * m <=? fst h) eqn:E; lia].
-    destruct (Z.eq_dec off 10) as [->|Hne10].
-    - apply Hfirst. rewrite <- Hh. f_equal. unfold announce_of, announce_lead, sched_time. ring.
-    - pose proof (contiguous_in _ _ Hc h Hinh).
-      apply (later_offsets_in_minute ts m off (fst h) (snd h)); try lia.
-      unfold splice_offsets in Hoffs.
-      destruct (n =? 1); [inversion Hoffs; subst; cbn in Hin; lia|].
-      destruct (n =? 2); [inversion Hoffs; subst; cbn in Hin; lia|].
-      destruct (n =? 3); [inversion Hoffs; subst; cbn in Hin; lia|discriminate]. }
+    exact Hcnt. }
   split; [|exact Hone].
   rewrite (events_in_minute_sum ts n segs offs m Hts (fun seg => seq_dom_seg ts segs seg Hd) Hoffs Hm).
   rewrite (sumZ_all_one _ _ Hone). apply lenZ_offsets; assumption.
 Qed.
 
-(** ** The event lost at a minute boundary (finding): 8 s segments at 90 kHz, one event per minute *)
+(** every event of the sequence is a scheduled splice announced from inside the sequence *)
+Theorem events_scheduled ts n segs offs sigma :
+  seq_dom ts segs -> splice_offsets n = Some offs -> In sigma (events ts n segs) ->
+  exists m off, 0 <= m /\ In off offs /\ sigma = sched_time ts m off /\
+                seq_start segs < announce_of ts sigma <= seq_end segs.
+Proof.
+  intros Hd Hoffs Hin. pose proof Hd as (Hts & Hc & Hne & H0 & Hmax).
+  unfold events in Hin. apply in_flat_map in Hin. destruct Hin as ([s e] & Hseg & Hx).
+  destruct (carried ts n (s, e)) as [x|] eqn:Ec; [|destruct Hx].
+  destruct Hx as [<-|[]].
+  apply (carried_spec _ _ _ _ _ _ (seq_dom_seg ts segs (s, e) Hd Hseg) Hoffs) in Ec.
+  destruct Ec as (m & off & Hm & Hoff & -> & Ha).
+  pose proof (contiguous_in _ _ Hc (s, e) Hseg) as Hb. cbn [fst snd] in *.
+  exists m, off. repeat split; try assumption; lia.
+Qed.
+
+(** ** The minute boundary (repaired by f8b1b37): 8 s segments at 90 kHz, one event per minute.
+    The segment [56 s, 64 s) starts in minute 0, contains the announce instant 63 s, and now carries
+    the event for the splice at 70 s. *)
 Definition segs8 : list (Z * Z) := map (fun k => (720000 * k, 720000 * (k + 1))) (seqZ 0 10).
 
 Theorem minute_boundary_witness :
@@ -471,9 +520,10 @@ Theorem minute_boundary_witness :
   let a := announce_of ts sigma in              (* announced at 63 s *)
   seq_dom ts segs8 /\ splice_offsets 1 = Some [10] /\
   seq_start segs8 < a <= seq_end segs8 /\
-  holder a segs8 = Some (56 * ts, 64 * ts) /\   (* the segment [56 s, 64 s) contains 63 s but starts in minute 0 *)
-  announcements ts 1 sigma segs8 = 0 /\         (* nobody announces the splice at 70 s *)
-  events ts 1 segs8 = [10 * ts].                (* the only event of the 80 s is the splice at 10 s *)
+  holder a segs8 = Some (56 * ts, 64 * ts) /\
+  carried ts 1 (56 * ts, 64 * ts) = Some sigma /\
+  announcements ts 1 sigma segs8 = 1 /\
+  events ts 1 segs8 = [10 * ts; 70 * ts].
 Proof.
   cbv zeta. split.
   - unfold seq_dom. split; [lia|]. split; [|split; [discriminate|split; vm_compute; [discriminate|reflexivity]]].
@@ -503,3 +553,8 @@ Proof. split; [destruct scte|]; reflexivity. Qed.
 
 Lemma segment_emsg_video n s d ts : segment_emsg true (Some n) s d ts = createEmsgAhead s (u64 (s + d)) ts n.
 Proof. reflexivity. Qed.
+
+(** chunked low-latency delivery carries the same event as the whole segment (since b6338c6) *)
+Lemma chunked_same chunked isVideo scte s d ts :
+  delivered_emsg chunked isVideo scte s d ts = segment_emsg isVideo scte s d ts.
+Proof. unfold delivered_emsg, chunked_drops_emsg. rewrite andb_false_r. reflexivity. Qed.
